@@ -29,8 +29,26 @@ def stream(ctx, n_runs, monitors_):
         oid = S["stocks"][0]["id"]
         done = {}
 
+        sched_minute = rnd.randrange(2, 30)
+
         def script(tr, handlers):
             au0 = handlers["open_auction"]
+            init0 = handlers["init"]
+
+            def init(context):
+                import rqalpha.api as api
+                init0(context)
+
+                def scheduled(c, bar_dict):
+                    # an order sent from a scheduled function: like one sent from handle_bar it is first looked at by the matcher AFTER the bar in which it was created
+                    try:
+                        o = api.order_shares(oid, 100)
+                    except Exception:
+                        o = None
+                    if o is not None:
+                        tr.orders[o.order_id] = o
+                    tr.stats["orders_from_scheduled_function"] += 1
+                api.scheduler.run_daily(scheduled, time_rule=api.market_open(minute=sched_minute))
 
             def open_auction(context, bar_dict):
                 import rqalpha.api as api
@@ -44,10 +62,11 @@ def stream(ctx, n_runs, monitors_):
                             tr.orders[o.order_id] = o
                             api.cancel_order(o)
                 au0(context, bar_dict)
-            return dict(handlers, open_auction=open_auction)
+            return dict(handlers, init=init, open_auction=open_auction)
         tr = trading.run_trading(rnd, S, cfgk, intensity=0.5, script=script)
         tr.run_seed, tr.run_index = rs, "m%d" % k
         ctx.stats["minute_runs"] += 1
+        ctx.stats["minute_orders_from_scheduled_function"] += tr.stats.get("orders_from_scheduled_function", 0)
         ctx.stats["minute_runs_" + cfgk["sim"]["matching_type"]] += 1
         ctx.stats["minute_trades"] += len([1 for kd, _ in tr.events if kd == "TRADE"])
         if tr.exc is not None:
